@@ -106,7 +106,7 @@ def accumulator_provenance(ctx):
         slot_stores = [n for n in u.own_nodes() if isinstance(n, ast.Assign) and any(
             isinstance(t, ast.Subscript) and is_name(t.value, u.params[2]) and is_name(t.slice, 'self') for t in n.targets)]
         for st_ in slot_stores:
-            v = st_.value
+            v = deref(cfg, cfg.node_of(st_), st_.value)
             okv = _is_init_call(v) or (isinstance(v, ast.Call) and v in ops)
             ctx.ob(okv, u, 'the accumulator slot only ever holds init() or an operator result: %s' % norm(st_),
                    '' if okv else 'an input item is adopted as the accumulator (later items are folded into the caller\'s own object)', node=st_)
@@ -126,7 +126,7 @@ def accumulator_provenance(ctx):
         ctx.ob(is_name(c.args[1], u.params[1]), u, 'the incoming item is folded in: %s' % norm(c))
         st = [n for n in u.own_nodes() if isinstance(n, ast.Assign) and any(
             isinstance(t, ast.Subscript) and is_name(t.value, tree) and is_name(t.slice, 'self') for t in n.targets)]
-        init_st = [s for s in st if _is_init_call(s.value)]
+        init_st = [s for s in st if _is_init_call(deref(cfg, cfg.node_of(s), s.value))]
         ok = len(init_st) == 1
         if ok:
             g = [a for a in ancestors(init_st[0]) if isinstance(a, ast.If)]
